@@ -29,6 +29,8 @@ Definition ACoin    : Z := 0.   (* bank: the pair's coin (Own: the voucher; Alia
 Definition AVoucher : Z := 1.   (* bank: the voucher denom of an Alias token / of an unregistered denom *)
 Definition AErc     : Z := 2.   (* ERC-20 of pair t *)
 Definition AFx      : Z := 3.   (* native FX (token component 0) *)
+Definition Callee      : Z := 60.                   (* the contract a memo call is addressed to (one fixed callee in the harness) *)
+Definition BlockedAddr : Z := 90.                   (* an address the bank refuses to credit (module account / blocked list) *)
 Definition ModTransfer : Z := -4.                   (* ibc transfer module account: the voucher pool *)
 Definition Escrow (chan : Z) : Z := - (10 + chan).  (* ICS-20 escrow account of a local channel, chan >= 0 *)
 (* ModErc20 = -2 and Supply = -3 from M_Cache *)
@@ -40,7 +42,7 @@ Inductive memo :=
 | NoMemo
 | MemoText                       (* not an IbcCallEvmPacket JSON: ignored *)
 | MemoBad                        (* a call packet that fails ValidateBasic *)
-| MemoCall (fails : bool).       (* a well-formed call; whether the callee fails *)
+| MemoCall (fails : bool) (v : Z). (* a well-formed call: whether the callee fails, and the value (FX) it is sent with *)
 
 Record inpacket := {
   ip_src : Z;            (* source channel on the remote chain *)
@@ -135,6 +137,7 @@ Section Ibc.
   (* ibc-go transfer Keeper.OnRecvPacket on the packet with the receiver rewritten to bech32 *)
   Definition transfer_recv (p : inpacket) (s : ist) : result ist :=
     if ip_amt p <=? 0 then Err s else            (* FungibleTokenPacketData.ValidateBasic *)
+    if ip_recv p =? BlockedAddr then Err s else  (* unescrow: explicit BlockedAddr check; vouchers: SendCoinsFromModuleToAccount refuses *)
     match ip_denom p with
     | DFx => pay s (Escrow (ip_dst p)) (ip_recv p) AFx 0 (ip_amt p)       (* unescrow *)
     | DBase t => pay s (Escrow (ip_dst p)) (ip_recv p) ACoin t (ip_amt p) (* unescrow *)
@@ -172,11 +175,14 @@ Section Ibc.
     match ip_memo p with
     | NoMemo | MemoText => Ok s1
     | MemoBad => Err s1
-    | MemoCall fails =>
+    | MemoCall fails v =>
         let from := isender (ip_src p) (ip_sender p) in
         if negb (has_acct s1 from) then Err s1         (* x/evm CallEVM: GetSequence of an unknown account *)
-        else if fails then Err (with_log s1 (EvCall from))
-        else Ok (with_log s1 (EvCall from))
+        else if ibal s1 (from, AFx, 0) <? v then Err s1  (* the EVM refuses a call whose value the caller cannot pay *)
+        else
+          (* evmPacket.Value moves from the derived sender to the callee inside the call *)
+          let s2 := with_bal s1 (ladd (ladd (ibal s1) (from, AFx, 0) (- v)) (Callee, AFx, 0) v) in
+          if fails then Err (with_log s2 (EvCall from)) else Ok (with_log s2 (EvCall from))
     end).
 
   (* through the ibc-go core cache rule *)
